@@ -51,6 +51,9 @@ const (
 	// on the wire and all other peers' round-R broadcasts were handled by B, and then until B is seen
 	// to move on (round-2 signature request on the wire / B returned) or a short bounded delay passed.
 	modeFaultHold = numModes
+	// modeSlowLink (pedersen, short real phase timer): eager random order, except for three messages
+	// on two links that are delayed by less than a phase each, see slowlink_test.go.
+	modeSlowLink = numModes + 1
 )
 
 // Re-delivery profiles (overlay on every mode): when clones of already delivered one-way
@@ -89,7 +92,7 @@ type redoItem struct {
 const maxHold = 800 * time.Millisecond
 
 var modeNames = [...]string{"eager-random", "eager-lifo", "batch-shuffle", "batch-reverse", "laggard-sender",
-	"laggard-receiver", "class-priority", "receiver-priority", "sender-priority", "targeted-redelivery", "targeted-concurrent", "fault-hold"}
+	"laggard-receiver", "class-priority", "receiver-priority", "sender-priority", "targeted-redelivery", "targeted-concurrent", "fault-hold", "slow-link"}
 
 type delivery struct {
 	Seq   int64  `json:"seq"`
@@ -127,6 +130,7 @@ type sched struct {
 	p2pDone    map[[2]int]bool // {to, from}: the FROST round-1 p2p share was handled
 	burst      int             // copies per concurrent group at the targeted receiver (0: 1..3 as everywhere)
 	msgDur     time.Duration   // running estimate of one broadcast handler execution (scheduler goroutine only)
+	slow *slowPlan // slow-link mode
 	// transport-fault mode
 	flt      *faultPlan
 	fltSince time.Time     // C's broadcast first seen held
@@ -160,6 +164,14 @@ type sched struct {
 	fltNeed      int         // B's round-R message count that proves the retried broadcast is out
 	fltSigR2     bool        // B's round-2 signature request was seen on the wire
 	fltReleased  string      // why C's broadcast was released
+	// slow-link bookkeeping
+	slowCount     map[[3]int]int
+	slowOrd       map[*fakenet.Envelope]int
+	slowStart     map[[2]int]time.Time // {node, validator} -> first deal bundle of that validator on the wire
+	slowDealSent  time.Time
+	slowDealDone  time.Time
+	slowShareLate bool
+	slowDelayed   int
 
 	// logical clock over sends and completed deliveries (pedersen pubkey-channel analysis)
 	tick        int64
@@ -180,6 +192,7 @@ func newSched(net *fakenet.Net, ids []peer.ID, rng *rand.Rand, mode int, patienc
 		classes: map[string]int{}, dupProfile: dupProfile, dupBudget: dupBudget, dupAll: dupAll, dupUsed: map[int]int{},
 		classCache: map[*fakenet.Envelope]string{}, redeliv: map[string]int{}, tgtA: -1, msgDone: map[[3]int]bool{}, p2pDone: map[[2]int]bool{}, nNodes: len(ids),
 		fltMsgSends: map[int]int{}, returned: make([]atomic.Bool, len(ids)),
+		slowCount: map[[3]int]int{}, slowOrd: map[*fakenet.Envelope]int{}, slowStart: map[[2]int]time.Time{},
 		r1LastSend: map[int]int64{}, r1Sends: map[int]int{}, r2Sends: map[int]int{}, r1Delivered: map[int][]int64{}, r1DupsTo: map[int]int{},
 	}
 	// targeted mode: receiver B and laggard sender C (distinct); A is whoever is fast
@@ -192,7 +205,11 @@ func newSched(net *fakenet.Net, ids []peer.ID, rng *rand.Rand, mode int, patienc
 	s.nodePrio = rng.Perm(len(ids))
 	s.settle = []time.Duration{200 * time.Microsecond, time.Millisecond, 4 * time.Millisecond}[rng.Intn(3)]
 	net.SetPolicy(func(e *fakenet.Envelope) fakenet.Verdict {
-		s.born.Store(e, time.Now())
+		now := time.Now()
+		s.born.Store(e, now)
+		if s.slow != nil {
+			s.slowNote(e, now)
+		}
 		if f := s.flt; f != nil && s.idx[e.From] == f.B {
 			cl := classOf(e)
 			s.mu.Lock()
@@ -349,6 +366,10 @@ func (s *sched) faultRelease() bool {
 
 func (s *sched) heldBack(e *fakenet.Envelope) bool {
 	switch s.mode {
+	case modeSlowLink:
+		at, _, ok := s.slowRelease(e)
+
+		return ok && time.Now().Before(at)
 	case modeFaultHold:
 		f := s.flt
 		if s.tgtPhase != 0 || f.Round == 0 || s.idx[e.From] != f.C || s.idx[e.To] != f.B {
@@ -465,6 +486,11 @@ func (s *sched) run() {
 		var oldestAge time.Duration
 		heldSeen := false
 		for _, e := range pend {
+			if s.mode == modeSlowLink {
+				if _, _, ok := s.slowRelease(e); ok {
+					continue // a delayed one-way bundle trips no stream timeout; its release time is fixed
+				}
+			}
 			if s.mode == modeFaultHold && s.heldBack(e) {
 				continue // no real-time timeout is tripped by holding a one-way message; own cap inside heldBack
 			}
@@ -504,7 +530,7 @@ func (s *sched) run() {
 				elig = append(elig, e)
 			}
 		}
-		if len(elig) == 0 && s.mode == modeFaultHold {
+		if len(elig) == 0 && (s.mode == modeFaultHold || s.mode == modeSlowLink) {
 			s.idle() // the hold is ended by faultRelease or its cap (heldBack)
 
 			continue
@@ -538,7 +564,7 @@ func (s *sched) run() {
 		}
 
 		switch s.mode {
-		case modeEagerRandom, modeLaggardSender, modeLaggardRecv, modeConcurrentTargeted, modeFaultHold:
+		case modeEagerRandom, modeLaggardSender, modeLaggardRecv, modeConcurrentTargeted, modeFaultHold, modeSlowLink:
 			s.deliver(elig[s.rng.Intn(len(elig))])
 		case modeRedeliverTargeted:
 			e := elig[s.rng.Intn(len(elig))]
